@@ -30,7 +30,8 @@ EXPLANATION = (
     'assertion (P4); the norm is taken per unit, axis=0 (X1); bounds are '
     'clipped after the ordering projection (W4); every hyperparameter reaches '
     'the projection and the constraint is attached whenever it acts (W1, W3).'
-    ' Also decided: each categorical bound is clipped under its own guard (K3); the topological order is a depth-first finish order, emitted on finish and reversed (O2); the range width enters the scaling only when upper > lower and zero-width pair dimensions are rejected (D2).')
+    ' Also decided: each categorical bound is clipped under its own guard (K3); the topological order is a depth-first finish order, emitted on finish and reversed (O2); the range width enters the scaling only when upper > lower and zero-width pair dimensions are rejected (D2).'
+    ' In every configuration state with ordering pairs given the categorical projection runs the ordering projection (K3 must-run).')
 ASSUMPTIONS = ['tf.maximum/minimum/norm/unstack semantics',
                'a convex combination of feasible points is feasible']
 
